@@ -46,10 +46,10 @@ def _forest_from_job(job):
 
 def jobs(tier, seed):
     out = []
-    kmax, G = (4, 3) if tier == "quick" else (5, 3)
+    kmax, G = (4, 3) if tier == "quick" else (6, 3)
     shapes = shapes_by_clone_count(kmax)
     for f in shapes:
-        for D in ((1,) if len(f.blocks) > 3 else (1, 2)):
+        for D in ((1,) if len(f.blocks) > (3 if tier == "quick" else 4) else (1, 2)):
             out.append({"name": f"G{G}-D{D}-{f.describe()}", "blocks": f.blocks, "parent": f.parent, "G": G, "D": D,
                         "cost": len(f.blocks) ** 3 * D})
     # two data points in one clone
@@ -327,7 +327,7 @@ def evidence(tier, seed, results, canaries):
                            "variable; for each forest shape, sample and grid index k the solver decides reported == brute-force marginal "
                            "(unsat = holds for all positive real data), plus positivity (= finite log) of every reported entry.",
             "functions_encoded": funcs,
-            "bounds": {"clones": "all unlabelled forest shapes with <= 4 (quick) / 5 (thorough) clones, one data point per clone, plus 3 shapes with a 2-point clone",
+            "bounds": {"clones": "all unlabelled forest shapes with <= 4 (quick) / 6 (thorough) clones, one data point per clone, plus 3 shapes with a 2-point clone",
                        "grid": "3 (quick); 3,4,5 (thorough); one G=1000 FFT-dispatch instance with 3 symbolic entries per clone (thorough)",
                        "samples": "1-2", "build orders": "incremental, full update(), alternative creation order"},
             "concrete_complement": "one job replays concrete samples whose rows sit 800-1200 nats apart through the unpatched code against a log-space brute force (per-sample normalisation)",
